@@ -542,6 +542,7 @@ func c14World(t *testing.T, r *simcore.Run) any {
 		r.Fail("harness", "c14/"+reason, "scheduler stopped: %s pending=%v", reason, r.IdlePending)
 	}
 	r.Count("segmentation-cases", int64(segCases))
+	r.FaultN("stream-segmented-into-short-reads", int64(segCases))
 	r.Count("datagrams-monitored", int64(monitored))
 	_ = netip.Addr{}
 	return map[string]any{"segmentation_cases": segCases, "through_tls": segTLS, "datagrams_monitored": monitored, "messages": notes}
